@@ -398,7 +398,7 @@ func c11Concurrent(t *T) {
 func init() {
 	Register(&Engine{
 		Prop: "C10", Name: "cachesim", Run: runC10,
-		Trials: map[string]int{"quick": 5000, "thorough": 200000},
+		Trials: map[string]int{"quick": 50000, "thorough": 500000},
 		Rule:   "a drawn source tree on a real mem.FS (file sizes around the 512-byte copy buffer: 0,1,511,512,513,1024,1500,2000,4096), a drawn RetainData policy (always/never/by name/by size), a cache store that is a full mem.FS or one exposing only OpenFile+Mkdir (file handles exposing only Write), the source behind a counting wrapper that injects no error but may serve reads in legal odd shapes (half buffers, single bytes, last bytes together with io.EOF), the copy buffer size as a knob in half of the trials; one task issues 3-16 drawn Open/Stat/Read/Seek/ReadDir(n)/handle-Stat/Close calls on the cache, mirrored on handles opened directly on the source; judged: same outcome, names, kinds, sizes, modes, bytes, EOF; no further source Open/Read of a retained file after its first successful open; distinct = event-log hash",
 		Components: map[string][]string{
 			"real": {"cache.ReadOnlyFS, cache dir handle", "internal/pathlock", "mem.FS as source and as cache store", "package helpers (MkdirAll fallback on the minimal store)"},
@@ -407,7 +407,7 @@ func init() {
 	})
 	Register(&Engine{
 		Prop: "C11", Name: "cachesim", Run: runC11,
-		Trials: map[string]int{"quick": 6000, "thorough": 200000},
+		Trials: map[string]int{"quick": 6000, "thorough": 120000},
 		Rule:   "fault mode: one fault at a drawn seam call index of the fill (source Open / each source Read; cache store MkdirAll steps, OpenFile(create), each Write - plain or after accepting a prefix -, Close) for files of 1..4096 bytes, then faults stop and the name is opened 1-3 more times; judged: a successful open always delivers the complete source bytes. concurrent mode: 2-4 tasks open the same uncached name (sometimes a neighbour) under the seeded scheduler with gates at every source and cache-store call (so the copy is paused at every chunk) and at the per-path lock, one fault in a fifth of these; judged: complete bytes for every successful open, never two write handles of one name open at once in the cache store, no deadlock; non-trivial = fault fired inside the fill / tasks completed; distinct = event-log hash",
 		Components: map[string][]string{
 			"real": {"cache.ReadOnlyFS", "internal/pathlock (real mutexes, lock gates)", "mem.FS source and cache store"},
